@@ -105,3 +105,19 @@ pub fn show(args: &[String]) {
     println!("{}", serde_json::to_string_pretty(&p.to_json()).unwrap());
     println!("{}", observe(&p, &RunCfg::default()));
 }
+
+/// host-register-names --out FILE : which names can a host register?
+pub fn register_names(args: &[String]) {
+    use std::io::Write;
+    let out = arg_val(args, "--out").expect("--out");
+    let mut w = std::io::BufWriter::new(std::fs::File::create(out).unwrap());
+    for name in ["__min", "__x", "__", "_x", "x__", "a", "_", "a__b", "___", "log", "__sort", "__to_array", "filter", "std"] {
+        let mut vm = cao_lang::prelude::Vm::new(()).unwrap();
+        let f = |_vm: &mut cao_lang::prelude::Vm<()>| -> Result<cao_lang::prelude::Value, cao_lang::prelude::ExecutionErrorPayload> {
+            Ok(cao_lang::prelude::Value::Nil)
+        };
+        let accepted = vm.register_native_function(name, f).is_ok();
+        let chars: Vec<String> = name.chars().map(|c| c.to_string()).collect();
+        writeln!(w, "{}", json!({"chars": chars, "accepted": accepted})).unwrap();
+    }
+}
